@@ -996,6 +996,73 @@ Section AssembleP.
     apply (S'old y Hy).
   Qed.
 
+  Local Lemma C_log : LQ s s'.
+  Proof.
+    assert (G7 : LQ s s7).
+    { exists [EvBindFn b x root]. split; [|constructor; [reflexivity|constructor]].
+      change (EvBindFn b x root :: log s3 = [EvBindFn b x root] ++ log s).
+      destruct (if_fields _ _ _ (proj1 IF)) as (_&_&_&_&_&_&_&_&_&_&_&_&->). reflexivity. }
+    eapply LQ_trans; [exact G7|]. eapply LQ_trans; [exact (LQ_changeParent _ _ _ _ _ _ _ Ecp)|].
+    eapply LQ_trans; [exact (inval_opt_LQ fuel _ _ _ _ Eiv)|].
+    apply LQ_eq. destruct (tp_shape _ _ _ _ TPs) as (w & h & E). rewrite E. reflexivity.
+  Qed.
+
+  Local Lemma C_h7 : handlers s7 = handlers s.
+  Proof.
+    change (handlers s3 = handlers s). destruct (if_fields _ _ _ (proj1 IF)) as (_&_&_&_&_&_&_&_&_&_&->&_). reflexivity.
+  Qed.
+  Local Lemma C_cp :
+    (forall k, k ∈ handlers t8 -> k ∈ handlers s7 /\ (inGraph (nd s7 k) = true -> inGraph (nd t8 k) = true)) /\
+    (forall k, k ∈ handlers s7 -> (inGraph (nd s7 k) = true /\ inGraph (nd t8 k) = true) \/ ~ has s7 k -> k ∈ handlers t8).
+  Proof. exact (changeParent_handlers fuel s7 (S b) (b_rhs r0) root t8 Hvc7 (match_opt_intro root _ Hvroot) Hinvq7 Ecp). Qed.
+  Local Lemma C_hu : handlers u = handlers t8. Proof. apply (is_handlers _ _ Hsame). Qed.
+  Local Lemma C_tail :
+    b ∈ handlers s' /\ (forall o, o ∈ observers (nd s' b) -> o ∈ handlers s') /\
+    (forall k, k ∈ handlers u -> k ∈ handlers s') /\
+    (forall k, k ∈ handlers s' -> k ∈ handlers u \/ k = b \/ k ∈ observers (nd u b)).
+  Proof. exact (EngineLocal.C13_changed_node_is_queued_for_handler u b s' None imm Htail). Qed.
+
+  Lemma assemble_frame : bfr s b s'.
+  Proof.
+    constructor.
+    - exact S'k.
+    - intros m Hm. apply S'has, U_has.
+      assert (Hm1 : has s1' m) by (unfold s1'; rewrite has_updb; unfold s1; rewrite has_upd; exact Hm).
+      unfold has. rewrite (if_old _ _ _ (proj1 IF) m) by (left; apply Hlt1, Hm1). exact Hm1.
+    - intros m Hm. destruct (S'old m Hm) as (A & _ & B & C). auto.
+    - exact S'valueOf.
+    - intros m Hm. rewrite (S'nd m Hm). apply (U_stamps m Hm).
+    - destruct U_b as (A & _ & B). split; [rewrite S'b; exact A|rewrite S'ingraph; exact B].
+    - exact Hedge_bmain.
+    - exact C_log.
+    - rewrite S'b. reflexivity.
+    - intros m Hm. apply (keep_valid m Hm).
+    - intros h Hhk. destruct C_tail as (A1 & A2 & A3 & A4). destruct (A4 h Hhk) as [Hu|[->|Ho]]; [|auto|].
+      + right. right. rewrite C_hu in Hu. destruct (proj1 C_cp h Hu) as [H7 Hr]. rewrite C_h7 in H7. split; [exact H7|].
+        intros Hg'. rewrite S'ingraph, U_ingraph. apply Hr. rewrite S7_ingraph. exact Hg'.
+      + right. left. rewrite (S'proj observers) by reflexivity. exact Ho.
+    - intros h Hhk Hc. destruct C_tail as (A1 & A2 & A3 & A4). apply A3. rewrite C_hu. apply (proj2 C_cp h).
+      + rewrite C_h7. exact Hhk.
+      + destruct Hc as [[H1 H2]|[H1 H2]].
+        * left. rewrite S7_ingraph. split; [exact H1|]. rewrite <- U_ingraph, <- S'ingraph. exact H2.
+        * right. intros H7. apply H1. unfold s7, s7_of in H7. rewrite has_upd in H7.
+          change (has s3 h) in H7. unfold has in H7. rewrite (if_old _ _ _ (proj1 IF) h) in H7 by (left; exact H2).
+          change (has s1' h) in H7. unfold s1' in H7. rewrite has_updb in H7. unfold s1 in H7. rewrite has_upd in H7. exact H7.
+    - destruct C_tail as (A1 & A2 & _). split; [exact A1|exact A2].
+    - exact queued_cases.
+    - exact done_old.
+    - exact S'parents.
+    - assert (Hgm : inGraph (nd s' (S b)) = true) by (rewrite S'ingraph; exact U_main).
+      split; [exact Hgm|]. apply (st_par _ HS' (S b) b Hgm).
+      rewrite (S'proj decl) by reflexivity. destruct (U_from3 (S b)) as (_ & _ & _ & _).
+      assert (Hd : decl (nd u (S b)) = b :: option_list root).
+      { destruct (is_node _ _ Hsame (S b)) as (_ & -> & _). destruct (c_static _ _ _ _ C8 (S b)) as (_ & -> & _).
+        unfold s7, s7_of. rewrite nd_upd_eq; [reflexivity|]. change (has s3 (S b)).
+        unfold has. rewrite (if_old _ _ _ (proj1 IF) (S b)) by (left; apply Hlt1; unfold s1'; rewrite has_updb; unfold s1; rewrite has_upd; exact Hhasmain).
+        change (has s1' (S b)). unfold s1'. rewrite has_updb. unfold s1. rewrite has_upd. exact Hhasmain. }
+      rewrite Hd. left.
+  Qed.
+
   Local Lemma CP_shape_arity m : arity_ok (nd s' m) = true.
   Proof. apply (bb_arity s' (PInv_BFB s' P' C_shape)). Qed.
 
@@ -1025,6 +1092,17 @@ Section AssembleP.
       destruct (nkind (nd u m)); try discriminate Est. apply bool_decide_eq_true in Har. rewrite Har in Hym. inv Hym.
   Qed.
 
+  (* the owed set across the step *)
+  Lemma assemble_frameP :
+    (forall y, inP s (b :: Rp) y = true -> y <> b -> inGraph (nd s' y) = true -> inP s' Rp y = true) /\
+    (forall w, inP s' Rp w = true -> inP s (b :: Rp) w = true \/ w = S b \/ inGraph (nd s w) = false) /\
+    inP s' Rp (S b) = true /\
+    (inP s' Rp b = true -> inHeap s b = true).
+  Proof.
+    split; [exact keepP|]. split; [exact casesP|]. split; [exact CP_main|].
+    intros Hb'. unfold inP in Hb'. rewrite (bool_decide_eq_false_2 _ PbR), andb_false_l, orb_false_r in Hb'.
+    destruct (queued_cases b Hb') as [Hq|[Hq|Hq]]; [exact Hq|lia|congruence].
+  Qed.
   Lemma assembleP : (LInvP s' Rp /\ Tplain s') /\ imm = None /\ stabNum s' = stabNum s /\ CF s s' /\
     (forall y, isDone s' y = true -> inGraph (nd s' y) = true -> isAlways (nkind (nd s' y)) = true ->
                isDone s y = true /\ inGraph (nd s y) = true /\ isAlways (nkind (nd s y)) = true).
@@ -1061,6 +1139,34 @@ Proof.
                isDone s y = true /\ inGraph (nd s y) = true /\ isAlways (nkind (nd s y)) = true)).
   { eapply (assembleP fuel s b u s1 imm); eassumption. }
   destruct A as ([L1 TP1] & -> & _ & C1 & D1). subst s'. auto.
+Qed.
+
+
+Definition bfrP (s : state) (b : nat) (R : list nid) (s' : state) : Prop :=
+  (forall y, inP s (b :: R) y = true -> y <> b -> inGraph (nd s' y) = true -> inP s' R y = true) /\
+  (forall w, inP s' R w = true -> inP s (b :: R) w = true \/ w = S b \/ inGraph (nd s w) = false) /\
+  inP s' R (S b) = true /\
+  (inP s' R b = true -> inHeap s b = true).
+
+Theorem bind_step_frameP fuel s b R s' :
+  Tplain s -> PInv s -> LInvP s (b :: R) -> inGraph (nd s b) = true -> nkind (nd s b) = KBindLhs b ->
+  recomputeNodeParallel fuel [] s b = Ok (s', None) -> PInv s' -> bfr s b s' /\ bfrP s b R s'.
+Proof.
+  intros TP P L Hg Hk H P'.
+  destruct (rnp_rns fuel s b s' H) as (s1 & imm & Hs & Hadd).
+  destruct (recomputeNodeSerial_spec PT PT_struct bind_spec_holds fuel [] s b s1 None imm Logic.I P eq_refl Hg Hs)
+    as [[Hr|Hr]|[(P1 & _) _]]; try discriminate.
+  destruct (rns_lhs fuel s b s1 imm Hk Hs) as (u & Hbind & Htail).
+  destruct (stages fuel s b u P Hg Hk Hbind) as (s3 & root & t8 & Einst & FP & Ecp & T8 & F8 & Eiv & Hsame & Hval & PU).
+  assert (Ei : imm = None).
+  { assert (A : (LInvP s1 R /\ Tplain s1) /\ imm = None /\ stabNum s1 = stabNum s /\ CF s s1 /\
+      (forall y, isDone s1 y = true -> inGraph (nd s1 y) = true -> isAlways (nkind (nd s1 y)) = true ->
+                 isDone s y = true /\ inGraph (nd s y) = true /\ isAlways (nkind (nd s y)) = true)).
+    { eapply (assembleP fuel s b u s1 imm); eassumption. }
+    apply A. }
+  subst imm. subst s'. split.
+  - eapply (assemble_frame fuel s b u s1 None); eassumption.
+  - eapply (assemble_frameP fuel s b u s1 None); eassumption.
 Qed.
 
 (** * The parallel pass on graphs with binds *)
